@@ -88,10 +88,19 @@ def synth_daily(tz="America/Chicago", start="2018-01-01", n=365, seed=0, kind="b
     return df
 
 
+def _local(ts, tz):
+    """naive wall-clock time -> aware; a non-existent time moves forward, an ambiguous one takes its first occurrence"""
+    try:
+        return pd.Timestamp(ts).tz_localize(tz)
+    except Exception:
+        return pd.Timestamp(ts).tz_localize(tz, nonexistent="shift_forward", ambiguous=True)
+
+
 def hourly_index(tz, start, days):
-    s = pd.Timestamp(start, tz=tz)
-    e = (pd.Timestamp(start) + pd.Timedelta(days=days)).tz_localize(tz)
-    return pd.date_range(s, e, freq="h", inclusive="left")
+    s = _local(start, tz)
+    e = _local(pd.Timestamp(start) + pd.Timedelta(days=days), tz)
+    # UTC arithmetic: every real hour exactly once, whatever the zone does in between
+    return pd.date_range(s.tz_convert("UTC"), e.tz_convert("UTC"), freq="h", inclusive="left").tz_convert(tz)
 
 
 def synth_hourly(tz="America/Chicago", start="2018-01-01", days=365, seed=0, ghi=False, noise=0.05,
